@@ -135,6 +135,9 @@ var gates = []gate{
 	{"ApplyIndent(doc)", func(x []byte) bool { _, err := emptyPatch.ApplyIndent(x, " "); return err == nil }, containerRoot},
 	{"MergePatch(doc,_)", func(x []byte) bool { _, err := jp.MergePatch(x, []byte(`{"k":1}`)); return err == nil }, nonNull},
 	{"MergePatch(_,patch)", func(x []byte) bool { _, err := jp.MergePatch([]byte(`{"k":1}`), x); return err == nil }, anyRoot},
+	{"MergePatch(doc,[..])", func(x []byte) bool { _, err := jp.MergePatch(x, []byte(` [1,{"a":null}] `)); return err == nil }, nonNull},
+	{"MergePatch(doc,scalar)", func(x []byte) bool { _, err := jp.MergePatch(x, []byte(`"s"`)); return err == nil }, nonNull},
+	{"MergeMergePatches(p1,[..])", func(x []byte) bool { _, err := jp.MergeMergePatches(x, []byte(`[1]`)); return err == nil }, objectRoot},
 	{"MergeMergePatches(p1,_)", func(x []byte) bool { _, err := jp.MergeMergePatches(x, []byte(`{"k":1}`)); return err == nil }, objectRoot},
 	{"MergeMergePatches(_,p2)", func(x []byte) bool { _, err := jp.MergeMergePatches([]byte(`{"k":1}`), x); return err == nil }, anyRoot},
 	{"CreateMergePatch(a,_)", func(x []byte) bool { _, err := jp.CreateMergePatch(x, []byte(`{"k":1}`)); return err == nil }, objectRoot},
